@@ -149,3 +149,43 @@ Proof.
   pose proof (find_level_le_max (split_cc T) t) as Hle. fold (find t T) in Hle.
   destruct (N.leb L (tlvl (find t T))) eqn:E2; [|reflexivity]. apply N.leb_le in E2. lia.
 Qed.
+
+(* ---- inside set_config ---- *)
+Lemma set_config_points_fin st cfg :
+  set_config st cfg = option_map snd (set_config_points st cfg).
+Proof. unfold set_config, set_config_points. destruct (build cfg); reflexivity. Qed.
+
+Lemma run_history_snoc c0 cs c :
+  run_history c0 (cs ++ [c]) = step (run_history c0 cs) c.
+Proof. unfold run_history. rewrite fold_left_app. reflexivity. Qed.
+
+(* a record logged from the Drop of an appender of the PREVIOUS configuration,
+   during the set_config that installs c, is handled exactly as c prescribes *)
+Theorem drop_probe_sees_new_config c0 cs c :
+  valid c0 -> Forall valid cs -> valid c ->
+  exists st, run_history c0 cs = Some st /\
+    forall T L, (L <= 5)%N ->
+      option_map (map (name_of c)) (drop_probe st c T L) = Some (spec_deliver c T L).
+Proof.
+  intros Hv Hcs Hc.
+  destruct (run_history_last c0 cs Hv Hcs) as (t0 & _ & Hr0).
+  eexists. split; [exact Hr0|]. intros T L HL.
+  assert (Hcs' : Forall valid (cs ++ [c])).
+  { apply Forall_app. split; [exact Hcs|constructor; [exact Hc|constructor]]. }
+  destruct (facade_never_drops_admitted c0 (cs ++ [c]) Hv Hcs') as (st & Hr & _ & H).
+  rewrite last_last in H. rewrite run_history_snoc, Hr0 in Hr. cbn [step] in Hr.
+  rewrite set_config_points_fin in Hr. unfold drop_probe.
+  destruct (set_config_points _ c) as [[mid fin]|]; [|discriminate].
+  cbn [option_map snd] in Hr. injection Hr as ->. cbn [option_map].
+  destruct (H T L HL) as [-> _]. reflexivity.
+Qed.
+
+(* post-build root_mut().set_level keeps a configuration valid *)
+Lemma root_set_level_valid cfg l : valid cfg -> valid (root_set_level cfg l).
+Proof. intros (H1 & H2 & H3 & H4). repeat split; assumption. Qed.
+
+Theorem root_set_level_spec cfg l :
+  valid cfg ->
+  valid (root_set_level cfg l) /\
+  spec_max (root_set_level cfg l) = fold_right N.max l (map l_level (c_loggers cfg)).
+Proof. intro H. split; [apply root_set_level_valid; exact H|reflexivity]. Qed.
